@@ -366,6 +366,70 @@ static std::string case_P(const std::vector<std::string> &fld)
     return out;
 }
 
+// The expression rebuilt bottom-up from its own tree with the public constructors (the calls the
+// printed string denotes).  An expression that is not eq to its own reconstruction is not in canonical
+// form (a C03/C04 matter): no printer/parser pair can round-trip it.
+static RCP<const Basic> rebuild(const RCP<const Basic> &b)
+{
+    if (is_a_Number(*b) or is_a<Symbol>(*b) or is_a<Constant>(*b) or is_a<BooleanAtom>(*b))
+        return b;
+    if (is_a<Add>(*b)) {
+        const Add &a = down_cast<const Add &>(*b);
+        RCP<const Basic> r = a.get_coef();
+        for (const auto &p : a.get_dict())
+            r = add(r, mul(p.second, rebuild(p.first)));
+        return r;
+    }
+    if (is_a<Mul>(*b)) {
+        const Mul &a = down_cast<const Mul &>(*b);
+        RCP<const Basic> r = a.get_coef();
+        for (const auto &p : a.get_dict())
+            r = mul(r, pow(rebuild(p.first), rebuild(p.second)));
+        return r;
+    }
+    if (is_a<Pow>(*b)) {
+        const Pow &p = down_cast<const Pow &>(*b);
+        return pow(rebuild(p.get_base()), rebuild(p.get_exp()));
+    }
+    vec_basic args;
+    for (const auto &x : b->get_args())
+        args.push_back(rebuild(x));
+    if (is_a<FunctionSymbol>(*b))
+        return function_symbol(down_cast<const FunctionSymbol &>(*b).get_name(), args);
+    if (dynamic_cast<const OneArgFunction *>(b.get()) != nullptr)
+        return down_cast<const OneArgFunction &>(*b).create(args);
+    if (dynamic_cast<const TwoArgFunction *>(b.get()) != nullptr)
+        return down_cast<const TwoArgFunction &>(*b).create(args);
+    if (dynamic_cast<const MultiArgFunction *>(b.get()) != nullptr)
+        return down_cast<const MultiArgFunction &>(*b).create(args);
+    if (is_a<Equality>(*b)) return Eq(args[0], args[1]);
+    if (is_a<Unequality>(*b)) return Ne(args[0], args[1]);
+    if (is_a<LessThan>(*b)) return Le(args[0], args[1]);
+    if (is_a<StrictLessThan>(*b)) return Lt(args[0], args[1]);
+    if (is_a<Not>(*b) and args.size() == 1 and is_a_Boolean(*args[0]))
+        return logical_not(rcp_static_cast<const Boolean>(args[0]));
+    if (is_a<And>(*b) or is_a<Or>(*b)) {
+        set_boolean s;
+        for (auto &x : args) {
+            if (!is_a_Boolean(*x))
+                return b;
+            s.insert(rcp_static_cast<const Boolean>(x));
+        }
+        return is_a<And>(*b) ? logical_and(s) : logical_or(s);
+    }
+    if (is_a<Piecewise>(*b)) {
+        PiecewiseVec v;
+        for (const auto &q : down_cast<const Piecewise &>(*b).get_vec()) {
+            RCP<const Basic> c = rebuild(q.second);
+            if (!is_a_Boolean(*c))
+                return b;
+            v.push_back({rebuild(q.first), rcp_static_cast<const Boolean>(c)});
+        }
+        return piecewise(std::move(v));
+    }
+    return b;
+}
+
 static std::string case_S(const std::vector<std::string> &fld)
 {
     if (g_forked) {
@@ -418,8 +482,17 @@ static std::string case_S(const std::vector<std::string> &fld)
             };
             bool same_printed = !same && !back.is_null() && unsign_zero(str(*back)) == unsign_zero(s);
             out += std::string("\tEQ=") + (same ? "1" : (same_printed ? "2" : "0"));
-            if (!same && !same_printed)
-                oracle += " parse(str(e)) is not eq to e;";
+            if (!same && !same_printed) {
+                // is e a fixpoint of its own constructors at all?
+                bool stable = false;
+                try {
+                    stable = eq(*rebuild(e), *e);
+                } catch (...) {
+                }
+                out += std::string("\tSTABLE=") + (stable ? "1" : "0");
+                if (stable)
+                    oracle += " parse(str(e)) is not eq to e;";
+            }
             if (fld.size() >= 2) {
                 RCP<const Basic> e2;
                 try {
